@@ -586,7 +586,7 @@ func checkC26(r *core.Run, p *core.Program) {
 		}
 		nFall++
 		// the last return of the function must be the byte-wise sibling applied to the parameter
-		ok, why := lastReturnDelegates(arr.TypesInfo, f, func(c *types.Func) bool { return isFunc(c, "internal/arrays", want) })
+		ok, why := fallbackDelegates(p, arr.TypesInfo, f, leVar0, func(c *types.Func) bool { return isFunc(c, "internal/arrays", want) })
 		r.Check("C26.pairing", "arrays."+name+"|falls back to "+want, f.Decl.Pos(), ok, why)
 	}
 	r.Floor("C26.pairing", "internal/arrays exported conversions", nFall, 20)
@@ -976,4 +976,72 @@ func checkC26Consumers(r *core.Run, p *core.Program) {
 		}
 	}
 	r.Floor("C26.consumers", "array-type cases choosing a conversion", sites, 8)
+}
+
+// fallbackDelegates: every return of f that can be reached when the host is not little-endian (decided from the
+// conditions on its path: `if isLittleEndian {fast}; slow`, `if !isLittleEndian {slow}; fast`, if/else) is a call of
+// the byte-wise sibling conversion applied to f's own argument; there is at least one. Returns under a test of
+// the argument's length (short-input exits) are C26.total's concern.
+func fallbackDelegates(p *core.Program, info *types.Info, f *fn, leVar types.Object, pred func(*types.Func) bool) (bool, string) {
+	a := newAnalysis(p)
+	sig := f.Obj.Type().(*types.Signature)
+	if sig.Params().Len() != 1 {
+		return false, "the conversion does not take exactly one argument"
+	}
+	param := sig.Params().At(0)
+	isLE := func(e ast.Expr) bool { return leVar != nil && objOf(info, e) == leVar }
+	n := 0
+	why := ""
+	ast.Inspect(f.Decl.Body, func(nd ast.Node) bool {
+		if _, isLit := nd.(*ast.FuncLit); isLit {
+			return false
+		}
+		ret, ok := nd.(*ast.ReturnStmt)
+		if !ok {
+			return true
+		}
+		conds, pols := pathConds(a, info, f, ret)
+		if leVar != nil && impliesAtomValue(info, f, conds, pols, isLE, true) {
+			return true // only reached on little-endian hosts: the fast path
+		}
+		lenGuarded := false
+		for _, c := range conds {
+			ast.Inspect(c, func(k ast.Node) bool {
+				if e, ok := k.(ast.Expr); ok && isLenOf(info, e, param) {
+					lenGuarded = true
+				}
+				return true
+			})
+		}
+		if lenGuarded {
+			return true
+		}
+		if len(ret.Results) != 1 {
+			why = "a return reached on big-endian hosts is not a single value"
+			return true
+		}
+		call, ok := stripParens(ret.Results[0]).(*ast.CallExpr)
+		if !ok || len(call.Args) != 1 {
+			why = "the return reached when the host is not little-endian is not a call of the sibling conversion: " + exprStr(ret.Results[0])
+			return true
+		}
+		c := callee(info, call)
+		if c == nil || !pred(c) {
+			why = "the return reached when the host is not little-endian calls " + exprStr(call.Fun) + ", not the conversion of the same name/element type"
+			return true
+		}
+		if objOf(info, call.Args[0]) != param {
+			why = "the sibling conversion is not applied to the function's own argument"
+			return true
+		}
+		n++
+		return true
+	})
+	if why != "" {
+		return false, why
+	}
+	if n == 0 {
+		return false, "no return delegates to the byte-wise sibling conversion"
+	}
+	return true, ""
 }
